@@ -14,6 +14,7 @@ from checks import common as cm
 from checks import phys, c01
 
 ID = 'C18'
+HASHSEED_EVERY = {'quick': 40, 'thorough': 200}     # one case in so many is also run under other string-hash seeds (harness._run_hashseed_invariant)
 BUDGET = {'quick': 400, 'thorough': 40000}
 WALL = {'quick': 170, 'thorough': 3000}
 CHUNK = 4
